@@ -17,8 +17,8 @@ def withTable (x y z : Nat) (f : NT → Int) : String :=
   | none => "ERR:model-bound"
 
 /-- `PhiTiny::get_c(y)`: π(y) for y < 20, else 8 ;  `get_k(x) = get_c(iroot<4>(x))` -/
-def getC (y : Nat) : Nat := if y < 20 then piTD y else 8
-def getK (x : Nat) : Nat := getC (irootN 4 x)
+def fGetC (y : Nat) : Nat := if y < 20 then piTD y else 8
+def fGetK (x : Nat) : Nat := fGetC (irootN 4 x)
 
 def formulasOps : String → Option (List String → String)
   -- <term> <64|128> x y a|c threads   (width and threads are irrelevant for the definition)
@@ -84,9 +84,9 @@ def formulasOps : String → Option (List String → String)
       | some [x, y] => toString (xStar x y)
       | _ => "ERR:proto"
   | "get_k" => some fun a => match natArgs a with
-      | some [x] => toString (getK x) | _ => "ERR:proto"
+      | some [x] => toString (fGetK x) | _ => "ERR:proto"
   | "get_c" => some fun a => match natArgs a with
-      | some [y] => toString (getC y) | _ => "ERR:proto"
+      | some [y] => toString (fGetC y) | _ => "ERR:proto"
   -- alg <name> x threads : every algorithm must return π(x) (0 for x < 2, negatives included)
   | "alg" => some fun a => match a with
       | [_name, xs, _t] => match parseInt? xs with
